@@ -27,6 +27,7 @@ type Parser struct {
 	function uint8
 	wbit     bool
 	strict   bool // immutable after NewParser
+	depth    int  // current list nesting depth of parseItem (bounded by secs2.MaxListDepth)
 }
 
 // NewParser returns a Parser configured by opts (default: non-strict).
@@ -126,6 +127,7 @@ func (p *Parser) initInput(input string) {
 	p.data = input
 	p.len = len(input)
 	p.pos = 0
+	p.depth = 0
 }
 
 // errf builds a *ParseError at the parser's current offset.
@@ -313,7 +315,15 @@ func (p *Parser) parseItem() (secs2.Item, error) {
 	// parse data item body
 	switch itemType {
 	case secs2.ListFormatCode:
+		// parseList -> parseItem recursion is driven by the input: without a bound a few megabytes of
+		// "<L<L<L..." exhaust the goroutine stack (fatal error: stack overflow — not recoverable). Use the
+		// same cap as the binary decoder; a deeper list could not be decoded by a peer anyway.
+		if p.depth >= secs2.MaxListDepth {
+			return nil, p.errf("list nesting deeper than %d", secs2.MaxListDepth)
+		}
+		p.depth++
 		item, err = p.parseList(maxSize)
+		p.depth--
 	case secs2.ASCIIFormatCode:
 		if p.strict {
 			item, err = p.parseASCIIStrict(maxSize)
